@@ -659,6 +659,32 @@ pub fn layout_replay(args: &[String]) {
                 trace.line(&json!({"text": esc(&text), "lex_ok": tk.is_some(), "toks": tk.unwrap_or_default(), "ok": ok, "panic": pn, "ast": if ok { ast } else { json!([]) }}));
             }
         }
+        // tight layouts: white space is dropped wherever the tokenizer (hook H1; judged on its own by C10) still reports the same
+        // tokens, first greedily at every boundary and then at a random half of the boundaries
+        for tight in 0..2 {
+            let mut gaps: Vec<String> = (0..toks.len() + 1).map(|i| if i == 0 || i == toks.len() { String::new() } else { " ".to_string() }).collect();
+            for i in 1..toks.len() {
+                if tight == 1 && lrng.gen_bool(0.5) {
+                    continue;
+                }
+                let keep = std::mem::take(&mut gaps[i]);
+                let v = concretize(toks, seed, idx as u64, &|j| gaps[j].clone());
+                if tokens_of(&v.text) != toks0 {
+                    gaps[i] = keep;
+                }
+            }
+            let v = concretize(toks, seed, idx as u64, &|j| gaps[j].clone());
+            if v.text == base.text {
+                continue;
+            }
+            let (ok, pn, ast) = parse_observe(&v.text);
+            variants += 1;
+            if pn || !ok || ast != ast0 {
+                bad += 1;
+                out.line(&json!({"mismatch": idx, "layout": format!("tight{}", tight), "text": v.text, "base": base.text,
+                                 "why": if pn {"panic"} else if !ok {"rejected once white space the tokenizer does not need is dropped"} else {"tree changed once white space the tokenizer does not need is dropped"}}));
+            }
+        }
     }
     trace.flush();
     out.line(&json!({"summary": {"checked": n, "variants": variants, "mismatches": bad, "skipped": skipped}}));
